@@ -18,6 +18,13 @@ for f in sorted(glob.glob('/tmp/mx/E-*.txt')):
             if '=' in kv:
                 c, rc = kv.split('=')
                 d[c] = int(rc)
+# re-run against the final checks (tools/regress_variants.sh): id -> {check: rc}
+reg = {}
+for f in sorted(glob.glob('/tmp/mx/regvar-*.txt')):
+    for line in open(f):
+        parts = line.split()
+        if len(parts) >= 2 and '=' in parts[1]:
+            reg[parts[0]] = {kv.split('=')[0]: int(kv.split('=')[1]) for kv in parts[1:] if '=' in kv}
 n = 0
 for d in sorted(glob.glob('/tmp/seed/outE/C*/e*/')):
     pid, k = d.rstrip('/').split('/')[-2:]
@@ -61,6 +68,9 @@ for d in sorted(glob.glob('/tmp/seed/outE/C*/e*/')):
         "checks_run": len(checks),
         "false_alarms": sorted([k2 for k2, v in checks.items() if v != 0]),
     }
+    if sid in reg:
+        meta["rerun_with_the_final_checks"] = {k2: ("VIOLATION" if v == 1 else ("quiet" if v == 0 else f"exit {v}")) for k2, v in sorted(reg[sid].items())}
+        meta["false_alarms"] = sorted(set(meta["false_alarms"]) | {k2 for k2, v in reg[sid].items() if v != 0})
     json.dump(meta, open(os.path.join(out, 'meta.json'), 'w'), indent=1)
     n += 1
 print("kept", n)
